@@ -8,6 +8,7 @@ package decimal
 
 import (
 	"encoding/binary"
+	"errors"
 	"fmt"
 )
 
@@ -72,6 +73,10 @@ func (z *Decimal) GobDecode(buf []byte) error {
 		return fmt.Errorf("Decimal.GobDecode: encoding version %d not supported", buf[0])
 	}
 
+	if len(buf) < 6 {
+		return errors.New("Decimal.GobDecode: buffer too small")
+	}
+
 	oldPrec := z.prec
 	oldMode := z.mode
 
@@ -83,6 +88,9 @@ func (z *Decimal) GobDecode(buf []byte) error {
 	z.prec = binary.BigEndian.Uint32(buf[2:])
 
 	if z.form == finite {
+		if len(buf) < 10 {
+			return errors.New("Decimal.GobDecode: buffer too small for finite value")
+		}
 		z.exp = int32(binary.BigEndian.Uint32(buf[6:]))
 		z.mant = z.mant.setBytes(buf[10:])
 	}
